@@ -67,3 +67,7 @@ Definition x_C12_wsp_ok (v : val) : val :=
   let c := nthv 0 v in let obs := nthv 1 v in
   vbool (c12w_ok (registry (c12w_ext c) HNone (c12w_watch c)) (c12w_reqs c)
                  (map wdec_step (as_list (nthv 0 obs)), dec_reg (nthv 1 obs))).
+
+(* the interleaved channel ParseTransport leaves for a track: (ch0 text) -> channel *)
+Definition x_C12_wsp_channel (c : val) : val :=
+  VI (parse_channel (as_int (nthv 0 c)) (as_bytes (nthv 1 c))).
